@@ -126,6 +126,9 @@ def _x(cls, cfg, shape):
     """(X, arguments) for the node class under test over a base array F of the given shape (None if not constructible)"""
     F, Fv = _arg('F', shape)
     args = dict(F=Fv)
+    if cls in ('Transpose', 'TakeDiag'):
+        # these rules delegate to the child's protocol method: use a child that accepts (Power with exponent 1 keeps the values)
+        F = ev.Power(F, ev.appendaxes(ev.constant(1), F.shape))
     if cls == 'Ravel':
         return ev.Ravel(F), args
     if cls == 'Unravel':
@@ -149,6 +152,8 @@ def _base_rank(cls, cfg):
         return len(cfg['axes'])
     if cls in ('InsertAxis', 'Unravel'):
         return cfg['rank'] - (1 if cls == 'InsertAxis' else 1)
+    if cls in ('Inflate', 'Take'):
+        return cfg['func_rank']
     return cfg['rank']
 
 
@@ -170,6 +175,13 @@ def _build(cls, cfg, shape, extra):
     if cls == 'InsertAxis':
         F, Fv = _arg('F', shape)
         return ev.InsertAxis(F, ev.constant(extra)), dict(F=Fv)
+    if cls == 'Inflate':
+        dshape = tuple(cfg['dofmap_shape'])
+        if tuple(shape[len(shape) - len(dshape):]) != dshape:
+            return None
+        F, Fv = _arg('F', shape)
+        rng = numpy.random.RandomState(3)
+        return ev.Inflate(F, ev.constant(rng.randint(0, 3, size=dshape)), ev.constant(3)), dict(F=Fv)
     if cls == 'Unravel':
         F, Fv = _arg('F', shape)
         last = shape[-1]
@@ -248,3 +260,122 @@ def _calls(X, Xv, method, cfg, args):
         axis = cfg['axis']
         for n in (2, 1):
             yield (axis, ev.constant(n)), numpy.repeat(numpy.expand_dims(Xv, axis), n, axis), args, '(%d, %d)' % (axis, n)
+
+
+# ------------------------------------------------------------------------------------------------ scalar extension rules
+
+def _cmp(orig, repl, args, what):
+    want = _eval(orig, args)
+    try:
+        got = _eval(repl, args)
+    except Exception as e:
+        print('REPLAY: VIOLATION-CONFIRMED %s: replacement %r raises %s (original %s)' % (what, repl, type(e).__name__, want.tolist()))
+        return True
+    ok = want.shape == got.shape and (numpy.array_equal(want, got) if want.dtype.kind in 'bi' else numpy.allclose(want, got, rtol=1e-12, atol=1e-12, equal_nan=True))
+    if not ok:
+        print('REPLAY: VIOLATION-CONFIRMED %s: original %s, replacement %r evaluates to %s at %s' % (what, want.tolist(), repl, got.tolist(), {k: v.tolist() for k, v in args.items()}))
+    return not ok
+
+
+def run_multiply_add(mine, other, other_is_product, model):
+    """self = product of the factors `mine`, other = product of `other` (or its single factor): self._add(other) vs self + other"""
+    names = sorted(set(mine) | set(other))
+    tried = 0
+    grids = [[int(model.get(n + '.val', 0)) for n in names]] + [list(v) for v in itertools.product((-1, 2, 3, 0), repeat=len(names))]
+    for consts in itertools.product((False, True), repeat=len(names)):
+        for vals in grids:
+            F, args = {}, {}
+            for n, c, v in zip(names, consts, vals):
+                if c:
+                    F[n] = ev.constant(v)
+                else:
+                    F[n] = ev.Argument(n, (), int)
+                    args[n] = numpy.array(v)
+            try:
+                me = ev.multiply(*[F[l] for l in mine])
+                ot = ev.multiply(*[F[l] for l in other]) if other_is_product else F[other[0]]
+            except Exception:
+                continue
+            if not isinstance(me, ev.Multiply) or (other_is_product and not isinstance(ot, ev.Multiply)):
+                continue
+            tried += 1
+            try:
+                repl = me._add(ot)
+            except Exception as e:
+                print('REPLAY: VIOLATION-CONFIRMED Multiply._add raised %s: %s for %r + %r' % (type(e).__name__, e, me, ot))
+                return
+            if repl is None:
+                continue
+            if _cmp(ev.Add(types.frozenmultiset((me, ot))), repl, args, 'Multiply._add(%s + %s)' % ('*'.join(mine), '*'.join(other))):
+                return
+    print('REPLAY: not reproduced on %d instances (factors constant / argument, values in {-1,0,2,3} and the model)' % tried)
+
+
+def run_power_power(mode):
+    """(x**a)**n against Power(x, a)._power(n) for a grid of bases and exponents (guided by the failed mode)"""
+    T = int if mode == 'int' else float
+    x = ev.Argument('x', (), T)
+    tried = 0
+    if mode == 'int':
+        cases = [(a, n) for a in (0, 1, 2, 3) for n in (0, 1, 2, 3)]
+    else:
+        cases = [(a, n) for a in (2., 4., 1., 3., .5) for n in (.5, .25, 2., 3., 1.5)]
+    for a, n in cases:
+        for a_const in (True, False):
+            args = {}
+            if a_const:
+                A = ev.constant(T(a))
+            else:
+                A = ev.Argument('a', (), T)
+                if T is int:
+                    A = ev.Maximum(A, ev.constant(0))
+                args['a'] = numpy.array(T(a))
+            if mode == 'even' and not (a_const and a % 2 == 0):
+                continue
+            N = ev.constant(T(n))
+            inner = ev.Power(x, A)
+            try:
+                repl = inner._power(N)
+            except Exception as e:
+                print('REPLAY: VIOLATION-CONFIRMED Power._power raised %s: %s' % (type(e).__name__, e))
+                return
+            if repl is None:
+                continue
+            for xv in (-3, -2, 2, 3, 0, -1):
+                args['x'] = numpy.array(T(xv))
+                orig = ev.Power(inner, N)
+                with numpy.errstate(all='ignore'):
+                    want = _eval(orig, args)
+                    if not numpy.isfinite(want).all():
+                        continue  # the property speaks about arguments on which the original is defined and finite
+                    tried += 1
+                    if _cmp(orig, repl, args, 'Power._power: (x**%s)**%s with %s exponent' % (a, n, 'constant' if a_const else 'argument-valued')):
+                        return
+    print('REPLAY: not reproduced on %d instances' % tried)
+
+
+def run_sign_abs():
+    x, y = ev.Argument('x', (), int), ev.Argument('y', (), int)
+    node = ev.multiply(x, y, ev.Sign(x))
+    repl = node._optimized_for_numpy()
+    if repl is None:
+        print('REPLAY: rule declined')
+        return
+    for xv in (-3, 0, 2):
+        for yv in (-2, 5):
+            if _cmp(node, repl, dict(x=numpy.array(xv), y=numpy.array(yv)), 'Multiply._optimized_for_numpy x*y*sign(x)'):
+                return
+    print('REPLAY: not reproduced')
+
+
+def run_logical_not():
+    b = ev.Argument('b', (), bool)
+    node = ev.LogicalNot(ev.LogicalNot(b))
+    repl = node._simplified()
+    if repl is None:
+        print('REPLAY: rule declined')
+        return
+    for bv in (False, True):
+        if _cmp(node, repl, dict(b=numpy.array(bv)), 'LogicalNot._simplified not not b'):
+            return
+    print('REPLAY: not reproduced')
